@@ -8,7 +8,10 @@ every cell of an enlarged window; neighbours and the start cell are computed by 
 (through the C11 codec model), so `_get_surrounding` and the loop are what is being compared.
 The property itself is also evaluated on the implementation's answers (result == touched set of
 the window, multi == union of members, collection values == aggregation over exactly the shapes
-whose own hash set has the cell).  H3 clauses: fixed corpus only, no theorem (see the evidence)."""
+whose own hash set has the cell).  H3 clauses: fixed corpus only, no theorem (see the evidence);
+polygon-like shapes there (full GeoRings alone / in a MultiGeoPolygon / in a collection, wedges,
+shapes with listed holes) are judged cell by cell over a neighbourhood with the shape's own analytic
+contains_coordinate: centre inside => returned, centre outside => not returned."""
 import itertools
 import json
 import math
@@ -26,7 +29,7 @@ import gen_flood                                                    # noqa: E402
 
 import logging                                                      # noqa: E402
 logging.disable(logging.CRITICAL)
-from geostructures import (Coordinate, GeoBox, GeoCircle, GeoLineString, GeoPoint, GeoPolygon)   # noqa: E402
+from geostructures import (Coordinate, GeoBox, GeoCircle, GeoLineString, GeoPoint, GeoPolygon, GeoRing)   # noqa: E402
 from geostructures.multistructures import MultiGeoLineString, MultiGeoPoint, MultiGeoPolygon       # noqa: E402
 from geostructures.collections import FeatureCollection, Track    # noqa: E402
 from geostructures.time import TimeInterval                       # noqa: E402
@@ -94,10 +97,15 @@ def build(d):
     if k == 'poly':
         holes = [GeoPolygon([C(p) for p in h]) for h in d.get('holes', [])]
         return GeoPolygon([C(p) for p in d['pts']], holes=holes or None, **kw)
+    if d.get('holes') and k in ('box', 'circle', 'ring'):
+        kw['holes'] = [build(h) if isinstance(h, dict) else GeoPolygon([C(p) for p in h]) for h in d['holes']]
     if k == 'box':
         return GeoBox(C(d['nw']), C(d['se']), **kw)
     if k == 'circle':
         return GeoCircle(C(d['c']), d['r'], **kw)
+    if k == 'ring':
+        # full annulus (a0, a1 = 0, 360) or wedge; the inner void of a full ring is NOT in .holes
+        return GeoRing(C(d['c']), d['r_in'], d['r_out'], d.get('a0', 0.0), d.get('a1', 360.0), **kw)
     if k == 'multipoint':
         return MultiGeoPoint([build(m) for m in d['members']], **kw)
     if k == 'multiline':
@@ -196,6 +204,70 @@ def gen_single(rng, base, L, kind, scale):
 
 LENGTHS = {16: [3, 4, 5], 32: [2, 3, 4], 64: [2, 3]}
 
+# Shapes WITHOUT entries in .holes that do not contain their own centroid (nor the centre of their bounds, nor the
+# centre of their circumscribing circle).  Mechanism class: the flood fill is started from / pruned by a point or
+# region DERIVED from the shape (centroid, bounds, centre) on the assumption that a hole-free shape contains it.
+# Sizes are chosen in cells, so that the derived point's cell -- and usually its whole 3x3 neighbourhood -- is
+# disjoint from the shape: U / C (all four openings), thin L, chevron polygons; GeoRing annuli (their void is not in
+# .holes); wedges wider than 180 degrees (angle_min == 0: .centroid is the centre; otherwise the outline's centroid).
+CONCAVE = ['U', 'ring', 'L', 'wedge', 'chevron']
+CONCAVE_LENGTHS = {16: [4, 5], 32: [3, 4], 64: [3]}
+
+
+def gen_concave(rng, base, L, kind):
+    """-> (description, shape, info); info['centroid_cell'] in 'untouched-3x3' | 'untouched' | 'touched' (fallback)"""
+    w, h = cell_dims(base, L)
+    last = None
+    for attempt in range(80):
+        grow = 1 + (attempt // 20) * 0.3
+        cx, cy = rng.uniform(-120, 120), rng.uniform(-45, 45)
+        if kind in ('U', 'L', 'chevron'):
+            t = rng.uniform(1.1, 1.6)
+            if kind == 'U':
+                W, H = rng.uniform(7.5, 10) * grow, rng.uniform(6.5, 9) * grow
+                pts = [(0, 0), (W, 0), (W, H), (W - t, H), (W - t, t), (t, t), (t, H), (0, H)]
+            elif kind == 'L':
+                A, B = rng.uniform(8, 11) * grow, rng.uniform(8, 11) * grow
+                pts = [(0, 0), (A, 0), (A, t), (t, t), (t, B), (0, B)]
+            else:
+                W, H, t2 = rng.uniform(15, 19) * grow, rng.uniform(8, 10) * grow, rng.uniform(1.5, 2.2)
+                pts = [(0, 0), (W / 2, H), (W, 0), (W / 2, H - t2)]
+            rot, flip = rng.randrange(4), rng.random() < 0.5
+            out = []
+            for u, v in pts:
+                u, v = u + rng.uniform(-0.12, 0.12), v + rng.uniform(-0.12, 0.12)
+                if flip:
+                    u = -u
+                for _ in range(rot):
+                    u, v = -v, u
+                out.append((cx + u * w, cy + v * h))
+            first = rng.randrange(len(out))          # any vertex may be the first one of the outline
+            out = out[first:] + out[:first]
+            d = {'kind': 'poly', 'pts': out + [out[0]]}
+        else:
+            m = max(w * math.cos(math.radians(cy)), h) * 111_320
+            r_in = rng.uniform(2.6, 3.2) * m * grow
+            r_out = r_in + rng.uniform(1.0, 1.6) * m
+            d = {'kind': 'ring', 'c': (cx, cy), 'r_in': r_in, 'r_out': r_out}
+            if kind == 'wedge':
+                a0 = 0.0 if rng.random() < 0.4 else rng.uniform(5, 170)
+                d.update(a0=a0, a1=a0 + rng.uniform(200, 320))
+        s = build(d)
+        if not window_safe(s, base, L):
+            continue
+        c = s.centroid
+        g = GH._coord_to_niemeyer(c, L, base)
+        near = [g] + list(GH.NiemeyerHasher._get_surrounding(g, base))
+        touched = [bool(GH.niemeyer_to_geobox(x, base).intersects_shape(s)) for x in near]
+        info = {'centroid': list(c.to_float()), 'centroid_cell': 'touched' if touched[0] else 'untouched' if any(touched) else 'untouched-3x3',
+                'contains_centroid': bool(s.contains_coordinate(c))}
+        last = (d, s, info)
+        if not touched[0] and not info['contains_centroid'] and (not any(touched) or attempt >= 40):
+            return last
+    if last is None:
+        raise RuntimeError('no placement')
+    return last
+
 
 def main():
     ck = Check('C12')
@@ -240,7 +312,7 @@ def main():
 
     # ---------------------------------------------------------------- flood fill of single shapes
     @total('flood')
-    def flood_case(d, base, L, source, check_contained=False):
+    def flood_case(d, base, L, source, check_contained=False, info=None):
         s = build(d)
         if d['kind'] in ('circle', 'ellipse', 'ring') or len(cases) % 2:
             # the shape has a past: it was exported and queried with coarse explicit resolutions before being hashed.
@@ -249,6 +321,16 @@ def main():
                              s.intersects_shape(GH.niemeyer_to_geobox(GH._coord_to_niemeyer(start_coord(s), L, base), base), k=5)))
             ck.count('hashed after coarse-k exports / queries on the same object')
         hasher = GH.NiemeyerHasher(L, base)
+        if len(cases) % 3 == 0:
+            # answers are values, not shared storage: the same hasher answered for this very object before and the
+            # caller consumed that answer in place (memoised / reused result sets would now be empty or foreign)
+            def consumed():
+                first = hasher.hash_shape(s)
+                if isinstance(first, (set, list, dict)):
+                    first.clear()
+                    first.update({'tampered': 1}) if isinstance(first, dict) else None
+            guarded(lambda: timed(consumed))
+            ck.count('hashed again after the first answer was emptied in place')
         r = guarded(lambda: timed(lambda: sorted(hasher.hash_shape(s))))
         if r[0] != 'Ok':
             i = add(f'KFlood {base} {L} {fq(0)} {fq(0)} [] []', {'k': 'flood', 'shape': d, 'base': base, 'len': L, 'out': list(r)})
@@ -264,6 +346,8 @@ def main():
                f'{listlit([f"({slit(c)}, {blit(tab[c])})" for c in cells])} {setlit(got)}')
         m = {'k': 'flood', 'shape': d, 'base': base, 'len': L, 'source': source, 'start': start,
              'n_window': len(cells), 'n_touched': len(touched), 'out': got}
+        if info:
+            m['derived_points'] = info
         i = add(lit, m)
         ck.count(f'flood:{d["kind"]}{"+hole" if d.get("holes") else ""}:base{base}')
         nontrivial.add((base, L, json.dumps(d, sort_keys=True)))
@@ -320,6 +404,26 @@ def main():
         ({'kind': 'line', 'pts': [(x0 + 0.2, y0 + 0.2), (x0 + w32 + 0.4, y0 + 0.8)]}, 32, 3),
         ({'kind': 'poly', 'pts': [(x0 + 0.9, y0 + 0.3), (x0 + w32 + 0.5, y0 + 0.35), (x0 + 1.2, y0 + 1.0), (x0 + 0.9, y0 + 0.3)]}, 32, 3),
     ]
+    # hole-free shapes that do not contain their centroid: U (opening north / east), thin L, chevron, annulus, wide wedges
+    U = [(0, 0), (9, 0), (9, 8), (7.7, 8), (7.7, 1.3), (1.3, 1.3), (1.3, 8), (0, 8)]
+
+    def cells32(pts, ox=0.31, oy=0.27, rot=0):
+        out = []
+        for u, v in pts:
+            for _ in range(rot):
+                u, v = -v, u
+            out.append((x0 + (u + ox) * w32, y0 + (v + oy) * h32))
+        return out + [out[0]]
+    fixed += [
+        ({'kind': 'poly', 'pts': cells32(U)}, 32, 3),
+        ({'kind': 'poly', 'pts': cells32(U, rot=3)}, 32, 3),
+        ({'kind': 'poly', 'pts': cells32([(0, 0), (9.5, 0), (9.5, 1.2), (1.2, 1.2), (1.2, 9), (0, 9)])}, 32, 3),
+        ({'kind': 'poly', 'pts': cells32([(0, 0), (8.5, 9), (17, 0), (8.5, 7.2)])}, 32, 3),
+        ({'kind': 'ring', 'c': (40.3, 33.7), 'r_in': 470_000, 'r_out': 660_000}, 32, 3),
+        ({'kind': 'ring', 'c': (-71.3, -12.4), 'r_in': 120_000, 'r_out': 170_000}, 16, 5),
+        ({'kind': 'ring', 'c': (12.3, 41.2), 'r_in': 110_000, 'r_out': 165_000, 'a0': 20.0, 'a1': 300.0}, 16, 5),
+        ({'kind': 'ring', 'c': (100.7, 8.9), 'r_in': 250_000, 'r_out': 330_000, 'a0': 0.0, 'a1': 270.0}, 64, 3),
+    ]
     for d, base, L in fixed:
         flood_case(d, base, L, 'fixed', check_contained=True)
 
@@ -333,6 +437,22 @@ def main():
         big = (n % 10 == 9)
         d, _ = gen_single(rng, base, L, kind, (6, 17) if big else (1.3, 7))
         flood_case(d, base, L, 'random')
+
+    # concave hole-free shapes whose centroid / bounds centre lie outside them (see CONCAVE), hashed finely enough that
+    # the cell of that point is disjoint from the shape; judged like every other shape (model flood from the first
+    # vertex over the implementation's own per-cell table; result == touched cells of the enlarged window)
+    n_conc = 150 if thorough else 15
+    for n in range(n_conc):
+        base = [16, 32, 64][n % 3]
+        kind = CONCAVE[(n // 3) % len(CONCAVE)]
+        L = rng.choice(CONCAVE_LENGTHS[base])
+        r = guarded(lambda: gen_concave(rng, base, L, kind))
+        if r[0] != 'Ok':
+            ck.count('concave:no-placement')
+            continue
+        d, _, info = r[1]
+        ck.count(f'concave:{kind}:centroid-cell-{info["centroid_cell"]}')
+        flood_case(d, base, L, 'concave:' + kind, info=info)
 
     # ---------------------------------------------------------------- points and multi-shapes
     @total('multi')
@@ -524,6 +644,18 @@ def main():
         w, h = cell_dims(base, L)
         cx, cy = rng.uniform(-170, 170), rng.uniform(-80, 80)
         pts = [Coordinate(cx + rng.uniform(-2, 2) * w, max(-90.0, min(90.0, cy + rng.uniform(-2, 2) * h))) for _ in range(rng.randint(5, 40))]
+        if n % 2:
+            # the cell a coordinate is filed under is a function of that coordinate alone, not of its neighbours in the
+            # call: successive coordinates exactly on the W/S/E/N edges and the four corners of the cell of the coordinate
+            # before them (each preceded by an interior point of that cell), then the random points, then the track reversed
+            lon, lat, ex, ey = GH._decode_niemeyer(GH._coord_to_niemeyer(Coordinate(cx, cy), L, base), base)
+            ins = [(lon, lat), (lon + ex * rng.uniform(-0.9, 0.9), lat + ey * rng.uniform(-0.9, 0.9))]
+            sp = [(lon - ex, lat), (lon, lat - ey), (lon + ex, lat), (lon, lat + ey),
+                  (lon - ex, lat - ey), (lon - ex, lat + ey), (lon + ex, lat - ey), (lon + ex, lat + ey)]
+            rng.shuffle(sp)
+            track = [Coordinate(x, max(-90.0, min(90.0, y))) for q in sp for (x, y) in (rng.choice(ins), q)]
+            pts = track + pts[:10] + track[::-1]
+            ck.count('coords:edge-and-corner-track')
         pts += [pts[0], pts[-1]]        # repeated coordinates
         hasher = GH.NiemeyerHasher(L, base)
         r1 = guarded(lambda: hasher.hash_coordinates(pts))
@@ -545,7 +677,7 @@ def main():
                 flag(i, 'coordinates-value', f'cell {c!r}: count {r1[1].get(c)}, expected {enc.count(c)}')
                 break
 
-    n_hc = 60 if thorough else 8
+    n_hc = 60 if thorough else 12
     for n in range(n_hc):
         coords_case(n)
 
@@ -555,6 +687,13 @@ def main():
         lon, lat, ex, ey = GH._decode_niemeyer(g, base)
         if not (-90 <= lat - ey and lat + ey <= 90):
             return
+        if len(cases) % 4 == 0:
+            # the returned list is the caller's: reordering / emptying it must not change the next answer
+            def consumed():
+                first = GH.NiemeyerHasher._get_surrounding(g, base)
+                first.reverse()
+                first.pop()
+            guarded(consumed)
         r = guarded(lambda: GH.NiemeyerHasher._get_surrounding(g, base))
         if r[0] != 'Ok':
             i = add(f'KSurround {base} {slit(g)} []', {'k': 'surround', 'base': base, 'hash': g, 'out': list(r)})
@@ -623,7 +762,10 @@ def main():
                    'cell of the vertex bounds enlarged by 2 cells and the returned set is compared with the model flood and with the '
                    'touched set; multi-shapes against the union of their members; FeatureCollections/Tracks with len/total_time/'
                    'unique_entities/custom agg; hash_coordinates with default and custom agg; _get_surrounding for every in-range '
-                   'cell of small depth.  non-trivial = distinct (base, length, shape description)',
+                   'cell of small depth; hole-free shapes that do not contain their own centroid / bounds centre (U, thin L, chevron polygons in '
+                   'all orientations, GeoRing annuli, wedges wider than 180 degrees), fixed and seeded, sized in cells so that the centroid\'s cell '
+                   '(usually its 3x3 neighbourhood) is disjoint from the shape; every third shape is hashed a second time on the same hasher after '
+                   'the first answer was emptied in place.  non-trivial = distinct (base, length, shape description)',
               assumptions=['the per-cell test niemeyer_to_geobox(cell).intersects_shape(shape) is taken from the implementation (not modelled, not proved to be geometric truth)',
                            'the touched cells of a connected shape are 8-connected (not proved; it is the hypothesis of C12_hash_exact_partial)',
                            'H3 clauses are observed on a fixed corpus only (no seeded inputs) and are covered by no theorem: '
@@ -668,6 +810,102 @@ def h3_corpus(ck):
             if not s.contains_coordinate(Coordinate(lo, la)):
                 bad.append({'h3': 'polygon-centre-outside', 'shape': d, 'res': res, 'cell': c})
                 break
+    # --- centre-inside semantics judged by the shape's OWN analytic membership test (GeoRing: radii and bearing, not the
+    # drawn outline), for every cell of a neighbourhood of the shape: a cell whose centre is inside must be returned, a cell
+    # whose centre is outside must not.  Cells whose centre is within `margin` of the boundary are not judged (the outline
+    # handed to H3 is a polygon drawn with finitely many points).  Mechanism class: which rings reach H3 (outline, .holes,
+    # voids that exist only in linear_rings() such as a full GeoRing's inner circle), their order and their (lat, lon) order.
+    def leaves(d):
+        return [x for m in d['members'] for x in leaves(m)] if d['kind'] == 'multipoly' else [d]
+
+    def judge(d, res, got, tag):
+        members = [(m, build(m)) for m in leaves(d)]
+        pts = [p for _, ms in members for p in ms.bounding_coords()]
+        lo_x, hi_x = min(p.longitude for p in pts), max(p.longitude for p in pts)
+        lo_y, hi_y = min(p.latitude for p in pts), max(p.latitude for p in pts)
+        px, py = 0.15 * (hi_x - lo_x), 0.15 * (hi_y - lo_y)
+        frame = [(lo_y - py, lo_x - px), (lo_y - py, hi_x + px), (hi_y + py, hi_x + px), (hi_y + py, lo_x - px)]
+        cand = set(h3.polygon_to_cells(h3.LatLngPoly(frame), res)) | set(got)
+        n_in = n_out = 0
+        verdicts = []
+        for c in sorted(cand):
+            la, lo = h3.cell_to_latlng(c)
+            votes = set()
+            for md, ms in members:
+                # metres -> degrees; curved shapes: 0.6 % of the largest radius (sagitta of a 36-gon is 0.38 %) + 1 m
+                mm = 1.0 + 0.006 * max(md.get('r', 0), md.get('r_out', 0))
+                dy = mm / 111_000
+                dx = dy / max(0.2, math.cos(math.radians(la)))
+                probes = [(lo, la)] + [(lo + dx * math.cos(2 * math.pi * j / 16), la + dy * math.sin(2 * math.pi * j / 16)) for j in range(16)]
+                votes.add(frozenset(bool(ms.contains_coordinate(Coordinate(x, y))) for x, y in probes))
+            inside = any(v == frozenset([True]) for v in votes)
+            outside = all(v == frozenset([False]) for v in votes)
+            if inside:
+                n_in += 1
+                if c not in got:
+                    verdicts.append({'h3': 'polygon-centre-inside-cell-missing', 'cell': c, 'centre_lon_lat': [lo, la]})
+            elif outside:
+                n_out += 1
+                if c in got:
+                    verdicts.append({'h3': 'polygon-centre-outside', 'cell': c, 'centre_lon_lat': [lo, la]})
+        obs['cells_judged_inside'] = obs.get('cells_judged_inside', 0) + n_in
+        obs['cells_judged_outside'] = obs.get('cells_judged_outside', 0) + n_out
+        if n_in == 0 or n_out == 0:
+            verdicts.append({'h3': 'corpus-entry-judges-nothing', 'inside': n_in, 'outside': n_out})
+        for v in verdicts[:2]:
+            bad.append(dict(v, shape=d, res=res, through=tag, n_returned=len(got), n_wrong=len(verdicts)))
+        return n_in
+
+    RING = {'kind': 'ring', 'c': (10.0, 45.0), 'r_in': 3000, 'r_out': 6000}
+    HOLE = [(10.05, 45.01), (10.065, 45.01), (10.065, 45.02), (10.05, 45.02), (10.05, 45.01)]     # inside the annulus, east of the void
+    corpus2 = [
+        (RING, 8), (RING, 9),
+        ({'kind': 'ring', 'c': (-73.9, 40.7), 'r_in': 8000, 'r_out': 15000}, 7),
+        ({'kind': 'ring', 'c': (151.2, -33.9), 'r_in': 2500, 'r_out': 5000}, 8),
+        ({'kind': 'ring', 'c': (24.9, 60.2), 'r_in': 4000, 'r_out': 4800}, 8),                         # thin annulus, high latitude
+        (dict(RING, holes=[HOLE]), 8),                                                                  # the void AND a listed hole
+        ({'kind': 'ring', 'c': (10.0, 45.0), 'r_in': 3000, 'r_out': 6000, 'a0': 30.0, 'a1': 150.0}, 8),  # wedges
+        ({'kind': 'ring', 'c': (10.0, 45.0), 'r_in': 3000, 'r_out': 6000, 'a0': 20.0, 'a1': 300.0}, 8),
+        ({'kind': 'ring', 'c': (-43.2, -22.9), 'r_in': 2000, 'r_out': 7000, 'a0': 300.0, 'a1': 420.0}, 8),   # through north
+        ({'kind': 'ring', 'c': (77.2, 28.6), 'r_in': 3000, 'r_out': 6000, 'a0': 0.0, 'a1': 270.0, 'holes': [
+            [(77.16, 28.63), (77.17, 28.63), (77.17, 28.64), (77.16, 28.64), (77.16, 28.63)]]}, 8),
+        ({'kind': 'circle', 'c': (2.3, 48.85), 'r': 6000, 'holes': [{'kind': 'circle', 'c': (2.3, 48.85), 'r': 2500}]}, 8),   # void as a listed hole
+        ({'kind': 'box', 'nw': (18.3, -33.8), 'se': (18.6, -34.0), 'holes': [
+            [(18.35, -33.95), (18.45, -33.95), (18.45, -33.85), (18.35, -33.85), (18.35, -33.95)],
+            {'kind': 'circle', 'c': (18.53, -33.9), 'r': 3000}]}, 7),                                       # two holes
+        ({'kind': 'poly', 'pts': [(100.4, 13.6), (100.7, 13.62), (100.72, 13.9), (100.55, 13.78), (100.38, 13.88), (100.4, 13.6)],
+          'holes': [[(100.45, 13.66), (100.52, 13.66), (100.5, 13.74), (100.45, 13.66)],
+                    [(100.58, 13.68), (100.66, 13.7), (100.62, 13.78), (100.58, 13.68)]]}, 7),             # concave, two holes
+        # the ring as a member of a multi-polygon (one member far away, one overlapping part of the void)
+        ({'kind': 'multipoly', 'members': [RING, {'kind': 'box', 'nw': (10.2, 45.05), 'se': (10.3, 44.98)}]}, 8),
+        ({'kind': 'multipoly', 'members': [{'kind': 'box', 'nw': (9.99, 45.005), 'se': (10.03, 44.99)}, RING]}, 8),
+    ]
+    for d, res in corpus2:
+        s = build(d)
+        got = GH.H3Hasher(res).hash_shape(s)
+        obs['polygons'] += 1
+        obs['cells'] += len(got)
+        judge(d, res, set(got), 'hash_shape')
+        # resolution passed per call instead of at construction: same cells
+        if d['kind'] != 'multipoly' and GH.H3Hasher().hash_shape(build(d), resolution=res) != got:
+            bad.append({'h3': 'resolution-kwarg', 'shape': d, 'res': res})
+    # ... and inside a collection: every cell is credited to exactly the shapes whose own analytic test has its centre
+    members = [dict(RING, props={'id': 0}), {'kind': 'box', 'nw': (9.97, 45.02), 'se': (10.02, 44.99), 'props': {'id': 1}},
+               {'kind': 'ring', 'c': (10.08, 45.0), 'r_in': 1500, 'r_out': 4000, 'a0': 200.0, 'a1': 340.0, 'props': {'id': 2}},
+               {'kind': 'point', 'p': (10.0, 45.0), 'props': {'id': 3}}]
+    for coll_cls in (FeatureCollection,):
+        built = [build(m) for m in members]
+        credit = GH.H3Hasher(8).hash_collection(coll_cls(built), agg_fn=lambda shapes: sorted(x.properties['id'] for x in shapes))
+        obs['collections'] += 1
+        for m in members[:3]:
+            mine = {c for c, ids in credit.items() if m['props']['id'] in ids}
+            judge({k: v for k, v in m.items() if k != 'props'}, 8, mine, f'hash_collection (cells credited to shape {m["props"]["id"]})')
+        if {c for c, ids in credit.items() if 3 in ids} != {h3.latlng_to_cell(45.0, 10.0, 8)}:
+            bad.append({'h3': 'collection-point-credit'})
+        counts = GH.H3Hasher(8).hash_collection(coll_cls(built))
+        if counts != {c: len(ids) for c, ids in credit.items()}:
+            bad.append({'h3': 'collection-count-vs-credit'})
+
     shapes = [build(dict(d, props={'id': i})) for i, (d, _) in enumerate(polys[:2])] + [GeoPoint(Coordinate(-73.9, 40.75), properties={'id': 9})]
     coll = FeatureCollection(shapes)
     out = GH.H3Hasher(7).hash_collection(coll)
@@ -714,6 +952,14 @@ def replay(path):
     elif m.get('k') == 'multi':
         s = build(m['shape'])
         print('implementation now:', sorted(GH.NiemeyerHasher(m['len'], m['base']).hash_shape(s)))
+    elif m.get('h3') and m.get('shape') and m.get('cell'):
+        import h3
+        s = build(m['shape'])
+        got = GH.H3Hasher(m['res']).hash_shape(s)
+        la, lo = h3.cell_to_latlng(m['cell'])
+        inside = [bool(x.contains_coordinate(Coordinate(lo, la))) for x in (s.geoshapes if hasattr(s, 'geoshapes') else [s])]
+        print(f'implementation now: hash_shape returns {len(got)} cells; cell {m["cell"]} (centre lon/lat {lo}, {la}) returned: {m["cell"] in got}; '
+              f'centre inside the shape (its own contains_coordinate, per member): {inside}')
     print('gallina case:', (r.get('gallina_case') or '')[:2000])
     lit = r.get('gallina_case')
     if lit:
